@@ -1,5 +1,6 @@
 import Enc.Model.ProtoRewrite
 import Enc.Spec.Protobuf
+import Enc.Lemmas.ProtoRewriteSpec
 /-!
 # C19 — proto rewriters replace exactly the templated fields
 Property theorems only.
@@ -30,5 +31,46 @@ theorem raw_ignores_input (fuel : Nat) (b i1 i2 : Bytes) : rewrite (fuel + 1) (.
   simp [rewrite]
 theorem multi_nil_writes_nothing (fuel : Nat) (i : Bytes) : rewrite (fuel + 2) (.multi []) i = .ok [] := by
   simp [rewrite, rewriteMulti]
+
+/-! ## rewriters = record-level specification (proofs in Enc/Lemmas/ProtoRewriteSpec*.lean, 2.4 k lines) -/
+
+open Lemmas.ProtoRewriteSpec Spec.Protobuf in
+/-- **MAIN.** For every well-formed rewriter tree (`rwOK`: table indices below the table length, embedded field numbers
+in range) and every input on which the record-level specification is defined (in particular every valid encoded
+message), the rewriter as coded — seen-set, first occurrence rewritten, later occurrences dropped, untemplated fields
+copied through `Append`, absent templated fields appended, length prefix spliced in front of rewritten sub-messages —
+returns a VALID message whose records are the specification's. `Sim false` is equality; below `embedded` rewriters
+(`Sim true`) a sub-message that was copied verbatim may differ from the specification's canonical re-encoding in the
+bytes of non-minimal varints only, never in its records. -/
+theorem rewrite_spec (r : Rw) (inp : Bytes) (sf : Nat) (recs : List (Nat × WireVal)) (hok : rwOK r = true)
+    (hsz : sizeM r * (inp.length + 1) < 2 ^ 64) (hs : specRw sf (toSpec r) inp = some recs) :
+    ∃ out recs', (∀ fuel, inp.length + fuelD r ≤ fuel → rewrite fuel r inp = .ok out) ∧
+      parse (out.length + 1) out = some recs' ∧ Sim (hasEmb r) recs' recs :=
+  Lemmas.ProtoRewriteSpec.rewrite_spec r inp sf recs hok hsz hs
+
+open Lemmas.ProtoRewriteSpec Spec.Protobuf in
+/-- without `embedded` nodes: the parsed output IS the specification's record list -/
+theorem rewrite_spec_exact (r : Rw) (inp : Bytes) (sf : Nat) (hok : rwOK r = true) (hne : hasEmb r = false)
+    (hsz : sizeM r * (inp.length + 1) < 2 ^ 64) (hdef : (specRw sf (toSpec r) inp).isSome = true) :
+    ∃ out, (∀ fuel, inp.length + fuelD r ≤ fuel → rewrite fuel r inp = .ok out) ∧
+      parse (out.length + 1) out = specRw sf (toSpec r) inp :=
+  Lemmas.ProtoRewriteSpec.rewrite_spec_exact r inp sf hok hne hsz hdef
+
+open Lemmas.ProtoRewriteSpec Spec.Protobuf in
+/-- fields the template does not mention are carried over in their original order with identical values -/
+theorem untemplated_fields_kept (len : Nat) (rs : List (Nat × Rw)) (inp : Bytes) (recs0 result : List (Nat × WireVal))
+    (sf : Nat) (hok : entsOK len rs = true) (hv : parse (inp.length + 1) inp = some recs0)
+    (hsz : (20 + sizeMEnts rs) * (inp.length + 1) < 2 ^ 64)
+    (hs : specMsg sf (toSpecEnts rs) recs0 [] = some result) :
+    ∃ out recs', (∀ fuel, inp.length + 2 + rs.length + fuelDEnts rs ≤ fuel →
+        rewrite fuel (.message len rs) inp = .ok out) ∧
+      parse (out.length + 1) out = some recs' ∧ Sim (hasEmbEnts rs) recs' result ∧
+      (recs0.filter fun q => (getRw rs q.1).isNone).Sublist recs' :=
+  Lemmas.ProtoRewriteSpec.rewrite_message_spec len rs inp recs0 result sf hok hv hsz hs
+
+open Lemmas.ProtoRewriteSpec in
+/-- the rewriter never panics, on any input and any rewriter tree (the seen-set is always large enough) -/
+theorem rewrite_never_panics (fuel : Nat) (r : Rw) (inp : Bytes) (e : String) : rewrite fuel r inp ≠ .panic e :=
+  (Lemmas.ProtoRewriteSpec.never_panics fuel).1 r inp e
 
 end Enc.Props.C19
